@@ -192,16 +192,35 @@ PROPS = {
         "assumptions": ["pickle/joblib reproduce every attribute other than the re-selected distance function (sampled on real round-trips)"],
     },
     "C12": {
-        "harness": "c12", "level": "proof", "category": "proof", "design_ref": "DESIGN.md 5/C12", "translators": [],
-        "technique": "Lean 4 proof (refinement: high-memory applier = low-memory applier under the in_graph invariant, lifted through the whole descent loop) + bit-exact correspondence of both appliers + API equality of both modes",
+        "harness": "c12", "level": "proof", "category": "proof", "design_ref": "DESIGN.md 5/C12", "translators": ["kernels"],
+        "technique": "Lean 4 proof (refinement: high-memory applier = low-memory applier under the in_graph invariant, lifted through the whole descent loop) "
+                     "+ refinement theorem over the regenerated Lean translation of apply_graph_updates_low_memory's source (every input; memory safety included) "
+                     "+ bit-exact correspondence of both appliers + API equality of both modes",
         "text": "Lean theorems applyHigh_eq_applyLow (graph AND change count, any thread count, any truthful update list, under the invariant that a "
                 "recorded candidate is one the heap would reject) and descent_low_eq_high (the whole modelled nn_descent returns identical rows and "
-                "generator state in both modes, for every configuration), plus low_memory_thread_count_irrelevant; both real appliers are compared "
-                "bit-for-bit with the model on the same update lists (self pairs, repeats, 1..16 threads) and with each other; real indexes built "
-                "with low_memory=True and False must have identical neighbor_graph arrays, search graphs and answers (dense, CSR, bit-packed)",
-        "note": TB + "the sampled bit-exact correspondence of model and kernels; symmetric NaN-free distance",
-        "explanation": "refinement theorem for all configurations + kernel correspondence + API equality",
-        "assumptions": COMMON_ASSUMPTIONS + ["symmetric distance function"],
+                "generator state in both modes, for every configuration), plus low_memory_thread_count_irrelevant. For the low-memory applier the tie "
+                "between model and code is itself a theorem: harness/translate_kernels.py re-translates the source text of "
+                "apply_graph_updates_low_memory (and of the checked_flagged_heap_push it calls) into Lean on every run (Gen/Kernels.lean: three nested "
+                "fuel loops over thread number / update block / entry, tuple unpacking, the `continue` on p == -1 or q == -1, p % n_threads == n, rows "
+                "handed to the translated push with write-back, out-of-bounds load/store = none) and kernel_apply_graph_updates_low_memory_refines "
+                "proves that for every rectangular graph (n rows of k >= 1 slots in the three arrays), n_threads > 0, update blocks whose triples are "
+                "placeholders or name rows 0 <= p, q < n, and fuel >= n_threads + #blocks + max block length + k + 3, the translated kernel never leaves "
+                "an array, keeps the shape, returns the model's change count and leaves, row for row, the model's graph applyLow n_threads (zipGraph ..) "
+                "(updsOf updates), where updsOf concatenates the blocks in order and drops the (-1) placeholders; kernel_low_memory_thread_count_irrelevant: "
+                "two runs of the translated kernel with any two positive thread counts return the same graph and count (= the sequential application); "
+                "kernel_low_memory_eq_high_memory: under heap order + true distances + valid in_graph record + truthful updates of a symmetric distance the "
+                "translated low-memory kernel's graph and count are those of the modelled high-memory applier. A change to the applier or to the push "
+                "changes the generated definitions and these proofs stop building. Both real appliers are compared bit-for-bit with the model on the "
+                "same update lists (self pairs, repeats, 1..16 threads) and with each other, and the translated low-memory applier is executed by the "
+                "driver (gk_apply) on the same graphs and update blocks and compared bit for bit with the numba kernel (translator validation); real "
+                "indexes built with low_memory=True and False must have identical neighbor_graph arrays, search graphs and answers (dense, CSR, bit-packed)",
+        "note": TB + "the translator harness/translate_kernels.py for apply_graph_updates_low_memory and checked_flagged_heap_push (syntax-directed; prange read as "
+                     "range - that the threads' writes do not interfere is C05's obligation; validated on every run by executing its output against the numba "
+                     "kernel); the sampled bit-exact correspondence of model and kernel for apply_graph_updates_high_memory and the rest of nn_descent; "
+                     "symmetric NaN-free distance",
+        "explanation": "refinement theorem for all configurations + generated-kernel = model theorem for the low-memory applier + kernel correspondence + API equality",
+        "assumptions": COMMON_ASSUMPTIONS + ["symmetric distance function",
+                                             "update triples name existing rows or carry the -1 placeholder (generate_graph_updates emits row numbers only)"],
     },
     "C13": {
         "harness": "c13", "level": "proof", "category": "proof", "design_ref": "DESIGN.md 5/C13", "translators": [],
